@@ -180,7 +180,9 @@ impl<'a> PrettyPrinter<'a> {
             })
             .always_fold_if(|| is_single_simple)
             .print_doc(ListStyle {
-                omit_delim_single: is_single_simple,
+                // The parentheses must stay if they contain a comment.
+                omit_delim_single: is_single_simple
+                    && !has_comment_children(params.to_untyped()),
                 ..Default::default()
             })
     }
